@@ -162,6 +162,7 @@ enum Step {
     SelRecv(bool, u64, u64),
     Keep(bool, u64, u64, u64, u64),
     Wrap(bool, u64),
+    Relay(bool, u64, u64),
 }
 
 #[derive(Clone, Debug)]
@@ -296,6 +297,10 @@ fn dec_steps(b: &[u64]) -> Vec<Step> {
             14 if left >= 2 => {
                 out.push(Step::Wrap(b[i + 1] % 2 == 1, b[i + 2]));
                 i += 3;
+            }
+            15 if left >= 3 => {
+                out.push(Step::Relay(b[i + 1] % 2 == 1, b[i + 2], b[i + 3]));
+                i += 4;
             }
             _ => break,
         }
@@ -457,6 +462,28 @@ async fn interpret(k: usize, m: u64, steps: Vec<Step>) {
                     .await;
                     Sub::new(s).await;
                 }
+                log(k, &[now()]);
+            }
+            Step::Relay(wrapped, chi, cho) => {
+                // hand-over chain: the received (registered) Sleep is polled once by this
+                // task and passed on; it may come back to a task that polled it earlier
+                let mut s = Recv { key: (m, chi), k }.await;
+                if wrapped {
+                    let mut sub = Sub::new(s);
+                    poll_fn(|cx| {
+                        let _ = Pin::new(&mut sub).poll(cx);
+                        Poll::Ready(())
+                    })
+                    .await;
+                    s = sub.inner;
+                } else {
+                    poll_fn(|cx| {
+                        let _ = s.as_mut().poll(cx);
+                        Poll::Ready(())
+                    })
+                    .await;
+                }
+                chan_send((m, cho), s);
                 log(k, &[now()]);
             }
             Step::RecvAwait(ch) => {
